@@ -18,7 +18,10 @@
 (***************************************************************************)
 EXTENDS SaslServer, Json, IOUtils
 
-Rec == ndJsonDeserialize(IOEnv.TRACE)
+\* TLC does not cache this definition (every use would parse the file again): TInit parses the file once
+\* into TLC register 1 and every other use reads the register.
+RecFile == ndJsonDeserialize(IOEnv.TRACE)
+Rec == TLCGet(1)
 VARIABLE l
 
 \* what was observed, read once per line of the file into state variables:
@@ -64,6 +67,7 @@ ObsSt(rp, oc) == CASE oc = "authenticated" -> "Done" [] oc = "failed" -> "Failed
                    [] OTHER -> FromAt(rp, Len(rp) + 1)
 
 TInit ==
+  /\ TLCSet(1, RecFile)
   /\ l \in 1..Len(Rec)
   /\ LET r == Rec[l]
          strm == r.stream
